@@ -30,12 +30,11 @@ func (ex *Exec) syncPool(st *State, name string, args []Value, depth int) []Outc
 		st.Pools[p.Obj] = append([]Value(nil), items[:len(items)-1]...)
 		return []Outcome{{St: st, Kind: ORet, Vals: []Value{v}}}
 	}
-	sv, ok := st.Heap[p.Obj].(StructV)
-	if !ok || len(sv.F) < 6 {
-		return []Outcome{{St: st, Kind: OAbort, Abort: "UNSUPPORTED: sync.Pool object is not a struct"}}
+	var nf FuncV
+	if sv, ok := st.Heap[p.Obj].(StructV); ok && len(sv.F) >= 6 {
+		nf, _ = sv.F[5].(FuncV)
 	}
-	nf, ok := sv.F[5].(FuncV)
-	if !ok || (nf.Fn == nil && nf.Intr == "") {
+	if nf.Fn == nil && nf.Intr == "" {
 		// the snapshot cannot carry func values: take New from the composite literal that
 		// initialises the global in the package's init
 		if fn := ex.poolNewFromInit(p.Obj); fn != nil {
